@@ -360,7 +360,7 @@ func (ex *Exec) Identical(st *State, a, b Ptr, withBase bool) string {
 }
 
 // OrderLaws generates refl/antisym/trans/ident for a method K.Compare(other Rule) int.
-func (ex *Exec) OrderLaws(fn *ssa.Function, fc *contract.Func) (ng *NotGenerated) {
+func (ex *Exec) OrderLaws(fn *ssa.Function, fc *contract.Func, carve map[string]contract.Clause) (ng *NotGenerated) {
 	label := load.FuncName(fn)
 	ex.SetFunc(label)
 	ex.caseType = ""
@@ -390,31 +390,103 @@ func (ex *Exec) OrderLaws(fn *ssa.Function, fc *contract.Func) (ng *NotGenerated
 		return smt.Ite(smt.Lt(x, "0"), "(- 1)", smt.Ite(smt.Gt(x, "0"), "1", "0"))
 	}
 	pos := ex.pos(fn.Pos())
+	withBase := fc.Opts["identical"] == "withbase"
+	emit := func(st *State, law string, goal string, vars map[string]Ptr) {
+		var names []string
+		for n := range vars {
+			names = append(names, n)
+		}
+		sort.Strings(names)
+		var wit []WitnessVar
+		for _, n := range names {
+			wit = append(wit, ex.witnessOf(st, n, vars[n], withBase)...)
+		}
+		finish := func(name string, extra []string) {
+			s2 := st
+			if len(extra) > 0 {
+				s2 = st.Clone()
+				for _, e := range extra {
+					s2.Assume(e)
+				}
+			}
+			ex.AddObl(s2, "law", name, pos, goal)
+			if ex.mute == 0 {
+				o := ex.Obls[len(ex.Obls)-1]
+				o.Witness = wit
+				o.Replay = "orderlaw"
+				o.Meta = map[string]string{"law": law, "type": TypeName(recvT), "rel": relOf(fn), "withbase": fmt.Sprint(withBase)}
+			}
+			ex.AddObl(s2, "vacuity", name+"/reachable", pos, smt.False)
+			if ex.mute == 0 {
+				ex.Obls[len(ex.Obls)-1].Note = "must-fail"
+			}
+		}
+		finish("law/"+law, nil)
+		if carve != nil {
+			if cl, ok := carve[law]; ok {
+				sc := &Scope{St: st, Vars: map[string]Val{}, Addr: map[string]bool{}, Pkg: fn.Pkg}
+				for n, p := range vars {
+					sc.Vars[n] = p
+				}
+				c := ex.EvalBool(sc, cl)
+				finish("law/"+law+"[outside-known-finding]", []string{smt.Not(c)})
+			}
+		}
+	}
 	{
 		st := ex.NewState()
 		x := mk(st, "x")
-		ex.AddObl(st, "law", "law/refl", pos, smt.Eq(cmp(st, x, x), "0"))
+		emit(st, "refl", smt.Eq(cmp(st, x, x), "0"), map[string]Ptr{"x": x})
 	}
 	{
 		st := ex.NewState()
 		x, y := mk(st, "x"), mk(st, "y")
 		c1, c2 := cmp(st, x, y), cmp(st, y, x)
-		ex.AddObl(st, "law", "law/antisym", pos, smt.Eq(sign(c1), smt.Sub("0", sign(c2))))
+		emit(st, "antisym", smt.Eq(sign(c1), smt.Sub("0", sign(c2))), map[string]Ptr{"x": x, "y": y})
 	}
 	{
 		st := ex.NewState()
 		x, y, z := mk(st, "x"), mk(st, "y"), mk(st, "z")
 		c1, c2, c3 := cmp(st, x, y), cmp(st, y, z), cmp(st, x, z)
-		ex.AddObl(st, "law", "law/trans", pos, smt.Imp(smt.And(smt.Le(c1, "0"), smt.Le(c2, "0")), smt.Le(c3, "0")))
+		emit(st, "trans", smt.Imp(smt.And(smt.Le(c1, "0"), smt.Le(c2, "0")), smt.Le(c3, "0")), map[string]Ptr{"x": x, "y": y, "z": z})
 	}
 	if !fc.Flags["noident"] {
 		st := ex.NewState()
 		x, y := mk(st, "x"), mk(st, "y")
 		c1 := cmp(st, x, y)
-		_, withBase := fc.Opts["identical"]
-		ex.AddObl(st, "law", "law/ident", pos, smt.Imp(smt.Eq(c1, "0"), ex.Identical(st, x, y, withBase && fc.Opts["identical"] == "withbase")))
+		emit(st, "ident", smt.Imp(smt.Eq(c1, "0"), ex.Identical(st, x, y, withBase)), map[string]Ptr{"x": x, "y": y})
 	}
 	return nil
+}
+
+// witnessOf lists the model-relevant leaves of *K object p (named n).
+func (ex *Exec) witnessOf(st *State, n string, p Ptr, withBase bool) []WitnessVar {
+	t := typeAt(p.Root, p.Path)
+	var ls []leaf
+	leaves(t, nil, "", &ls)
+	var out []WitnessVar
+	for _, l := range ls {
+		if !withBase && (strings.HasPrefix(l.Names, "Base.") || l.Names == "Base") {
+			continue
+		}
+		pp := p
+		pp.Path = append(append([]Step(nil), p.Path...), l.Path...)
+		v := ex.Load(st, pp, l.Type)
+		name := n + "." + l.Names
+		switch x := v.(type) {
+		case Int:
+			out = append(out, WitnessVar{Name: name, Kind: "int", Term: x.T})
+		case Bool:
+			out = append(out, WitnessVar{Name: name, Kind: "bool", Term: x.T})
+		case Str:
+			out = append(out, WitnessVar{Name: name, Kind: "str", Term: x.T})
+		case Slice:
+			if mustSort(x.Elem) == "Str" {
+				out = append(out, WitnessVar{Name: name, Kind: "strs", Term: x.Arr, Len: x.Len})
+			}
+		}
+	}
+	return out
 }
 
 func sortedKeys(m map[string]bool) []string {
